@@ -3,7 +3,7 @@
 # /root/.vp/BASELINE.json that does not pass now.
 export GOFLAGS=-mod=mod GOPROXY=off GOSUMDB=off GOTOOLCHAIN=local
 out=${1:-/tmp/baseline.json}
-(cd /repo && go test -json -vet=off -count=1 -timeout 25m ./... > $out 2>/dev/null)
+(cd ${BASE_REPO:-/repo} && go test -json -vet=off -count=1 -timeout 25m ./... > $out 2>/dev/null)
 python3 - "$out" <<'PY'
 import json,sys
 base=json.load(open('/root/.vp/BASELINE.json'))
